@@ -2,6 +2,8 @@ import FordModel.Proto
 import FordModel.Scope
 import FordModel.ScopeSpec
 import FordModel.ScopeBlock
+import FordModel.ScopeBind
+import FordModel.ScopeSub
 namespace Ford
 open Proto Scope
 
@@ -30,12 +32,18 @@ structure BBody where
   inner : List Block := []
 
 def nsOf (s : Str) : NS := if s == "t".toList then .ty else if s == "a".toList then .ab else .pr
-def skOf (s : Str) : SK := if s == "ty".toList then .ty else if s == "pa".toList then .pa else .pr
+def skOf (s : Str) : SK :=
+  if s == "ty".toList then .ty else if s == "pa".toList then .pa else if s == "bn".toList then .bn else .pr
 def phOf (s : Str) : Phase := if s == "e".toList then .early else .late
 
 def takePairs : Nat → List Str → List (Str × Str) → Option (List (Str × Str) × List Str)
   | 0, r, acc => some (acc.reverse, r)
   | n + 1, l :: rm :: r, acc => takePairs n r ((l, rm) :: acc)
+  | _ + 1, _, _ => none
+
+def takeCells : Nat → List Str → List (Nat × Str) → Option (List (Nat × Str) × List Str)
+  | 0, r, acc => some (acc.reverse, r)
+  | n + 1, i :: nm :: r, acc => takeCells n r ((natOf i, nm) :: acc)
   | _ + 1, _, _ => none
 
 /-- block := "[" ( U ... | D ... | block )* "]" (the opening bracket is already consumed) -/
@@ -104,22 +112,36 @@ def parseBody : Nat → List Str → Body → Option (Body × List Str)
         | _ => none
       else none
 
-/-- project := ( ("M" | "N") scope )* ; every scope is "(" name ent isFunc body ")" -/
-def parseProject : Nat → List Str → List (Bool × BScope) → Option (List (Bool × BScope))
+/-- project := ( ("M" | "N" | "S" header) scope )* ; every scope is "(" name ent isFunc body ")";
+    header := ancestor (parent | "-") ancSlot parSlot n (slot name)* -/
+def parseProject : Nat → List Str → List (UKind × BScope) → Option (List (UKind × BScope))
   | 0, _, _ => none
   | _ + 1, [], acc => some acc.reverse
-  | fuel + 1, flag :: toks, acc =>
-    match toks with
-    | op :: nm :: e :: f :: r2 =>
-      if op == "(".toList then
-        match parseBody (r2.length + 1) r2 {} with
-        | some (cb, r3) =>
-          let s := BScope.mk nm (natOf e) (f == "1".toList) cb.uses.reverse cb.decls.reverse
-            cb.slots.reverse (blocksOfList cb.blocks.reverse) (kidsOfList cb.kids.reverse)
-          parseProject fuel r3 ((flag == "M".toList, s) :: acc)
-        | none => none
-      else none
-    | _ => none
+  | fuel + 1, flag :: toks0, acc =>
+    let hdr : Option (UKind × List Str) :=
+      if flag == "S".toList then
+        match toks0 with
+        | anc :: par :: sa :: sp :: n :: r =>
+          match takeCells (natOf n) r [] with
+          | some (pairs, r2) =>
+            some (.sub ⟨anc, if par == "-".toList then none else some par, natOf sa, natOf sp, pairs⟩, r2)
+          | none => none
+        | _ => none
+      else some (if flag == "M".toList then .mod else .other, toks0)
+    match hdr with
+    | none => none
+    | some (kind, toks) =>
+      match toks with
+      | op :: nm :: e :: f :: r2 =>
+        if op == "(".toList then
+          match parseBody (r2.length + 1) r2 {} with
+          | some (cb, r3) =>
+            let s := BScope.mk nm (natOf e) (f == "1".toList) cb.uses.reverse cb.decls.reverse
+              cb.slots.reverse (blocksOfList cb.blocks.reverse) (kidsOfList cb.kids.reverse)
+            parseProject fuel r3 ((kind, s) :: acc)
+          | none => none
+        else none
+      | _ => none
 
 def showRes (r : Res) : List Str :=
   r.map fun (sl, o) => showNat sl.id ++ ['='] ++ (match o with | some e => showNat e | none => "-".toList)
@@ -133,27 +155,144 @@ def regOf (s : Str) : BlockReg :=
   ⟨((s.drop 2).head? == some '1'), false, false⟩
 
 /-- the block-local declarations the model says the parser registers in an enclosing unit -/
-def showReg (reg : BlockReg) (us : List (Bool × BScope)) : List Str :=
+def showReg (reg : BlockReg) (us : List (UKind × BScope)) : List Str :=
   (us.flatMap fun x => registered reg x.2).map fun e => "r:".toList ++ showNat e
+
+/-- fourth character of the variant: 1 = the inherited copy of a generic binding shares the list of
+    its specifics with the parent type's generic binding (code as found) -/
+def sharedOf (s : Str) : Bool := (s.drop 3).head? == some '1'
+
+/-- type records: ( "T" ent (slot | "-") n (name ent)* m (slot name)* )* ; the parent of a type is
+    what the model put into its `extends` slot -/
+def parseTypes (res : Res) : Nat → List Str → List TypeRec → Option (List TypeRec)
+  | 0, _, _ => none
+  | _ + 1, [], acc => some acc.reverse
+  | fuel + 1, t :: e :: x :: n :: r, acc =>
+    if t == "T".toList then
+      match takePairs (natOf n) r [] with
+      | some (own, m :: r2) =>
+        match takeCells (natOf m) r2 [] with
+        | some (gens, r3) =>
+          let parent := if x == "-".toList then none else resGet res (natOf x)
+          -- `own` in declaration order; a table has the most recent write at its head
+          parseTypes res fuel r3
+            (⟨natOf e, parent, (own.map fun p => (lower p.1, natOf p.2)).reverse, gens⟩ :: acc)
+        | none => none
+      | _ => none
+    else none
+  | _ + 1, _, _ => none
+
+def showCells (r : List (Nat × Option Ent)) : List Str :=
+  r.map fun (i, o) => showNat i ++ ['='] ++ (match o with | some e => showNat e | none => "-".toList)
+
+/-- project tokens, then (optionally) "|" and the type records, then "|" and the submodule section -/
+def splitTypes (toks : List Str) : List Str × List Str × List Str :=
+  let p := toks.span (fun t => !(t == "|".toList))
+  let q := (p.2.drop 1).span (fun t => !(t == "|".toList))
+  (p.1, q.1, q.2.drop 1)
+
+def takeNats : Nat → List Str → List Nat → Option (List Nat × List Str)
+  | 0, r, acc => some (acc.reverse, r)
+  | n + 1, x :: r, acc => takeNats n r (natOf x :: acc)
+  | _ + 1, [], _ => none
+
+/-- "I" n ent* "O" m ent* : the interface-body entities and the project's list order of the submodules -/
+def parseSubSection : List Str → List Ent × List Ent
+  | i :: n :: r =>
+    if i == "I".toList then
+      match takeNats (natOf n) r [] with
+      | some (pairable, o :: m :: r2) =>
+        if o == "O".toList then
+          match takeNats (natOf m) r2 [] with
+          | some (order, _) => (pairable, order)
+          | none => (pairable, [])
+        else (pairable, [])
+      | some (pairable, _) => (pairable, [])
+      | none => ([], [])
+    else ([], [])
+  | _ => ([], [])
+
+/-- fifth / sixth character of the variant: 1 = the parent's tables overwrite the local declarations
+    of a submodule; 1 = the parent submodule is looked up by its name alone (code as found) -/
+def svOf (s : Str) : SVariant := ⟨(s.drop 4).head? == some '1', (s.drop 5).head? == some '1'⟩
+
+def flattenUnits (reg : BlockReg) (us : List (UKind × BScope)) : List (UKind × Scope) :=
+  us.map fun x => (x.1, flatten reg x.2)
+
+def eraseUnits (us : List (UKind × BScope)) : List (UKind × Scope) :=
+  us.map fun x => (x.1, eraseBlocks x.2)
+
+end C07Wire
+
+namespace C07Wire
+
+/-- the model's answer for one variant of a parsed project (`none` = malformed type records) -/
+def runVariant (v : Str) (us : List (UKind × BScope)) (tt : List Str) (pairable order : List Ent) : Option (List Str) :=
+  let res := corrProjectS (variantOf v) (svOf v) pairable order PState.empty (flattenUnits (regOf v) us)
+  match parseTypes res (tt.length + 1) tt [] with
+  | some rs => some (showRes res ++ showCells (genericRes (sharedOf v) rs) ++ showReg (regOf v) us)
+  | none => none
+
+def runSpec (us : List (UKind × BScope)) (tt : List Str) (pairable : List Ent) : Option (List Str) :=
+  let res := specProjectS pairable SpecState.empty (eraseUnits us)
+  match parseTypes res (tt.length + 1) tt [] with
+  | some rs => some (showRes res ++ showCells (specGenericRes [] rs))
+  | none => none
+
+/-- answers for several variants and the specification, each introduced by "#" and its name -/
+def runMany (us : List (UKind × BScope)) (tt : List Str) (pairable order : List Ent) : List Str → Option (List Str)
+  | [] => (runSpec us tt pairable).map fun r => "#".toList :: "spec".toList :: r
+  | v :: vs =>
+    match runVariant v us tt pairable order, runMany us tt pairable order vs with
+    | some r, some rest => some ("#".toList :: v :: (r ++ rest))
+    | _, _ => none
 
 end C07Wire
 
 open C07Wire in
 def dispatchC07 : List Str → Option (List Str)
   | cmd :: args =>
-    if cmd == "c07.run".toList then
-      -- c07.run <variant: three chars 0/1 = alias, hostOverLocal, blockUse> <project tokens>
+    if cmd == "c07.multi".toList then
+      -- c07.multi <n> <variant>*n <project tokens> [| <type records> [| <submodule section>]]
       match args with
-      | v :: toks =>
+      | n :: rest =>
+        let vs := rest.take (natOf n)
+        let (toks, tt, st) := splitTypes (rest.drop (natOf n))
+        let (pairable, order) := parseSubSection st
         match parseProject (toks.length + 1) toks [] with
-        | some us => some ("ok".toList :: (showRes (corrBProject (variantOf v) (regOf v) us) ++ showReg (regOf v) us))
+        | some us =>
+          match runMany us tt pairable order vs with
+          | some r => some ("ok".toList :: r)
+          | none => some ["bad-types".toList]
+        | none => some ["bad-project".toList]
+      | _ => some ["bad-request".toList]
+    else if cmd == "c07.run".toList then
+      -- c07.run <variant: six chars 0/1 = alias, hostOverLocal, blockUse, sharedSpecifics, ancOverLocal,
+      --   parentByName> <project tokens> [| <type records> [| <submodule section>]]
+      match args with
+      | v :: all =>
+        let (toks, tt, st) := splitTypes all
+        let (pairable, order) := parseSubSection st
+        match parseProject (toks.length + 1) toks [] with
+        | some us =>
+          let res := corrProjectS (variantOf v) (svOf v) pairable order PState.empty (flattenUnits (regOf v) us)
+          match parseTypes res (tt.length + 1) tt [] with
+          | some rs =>
+            some ("ok".toList :: (showRes res ++ showCells (genericRes (sharedOf v) rs) ++ showReg (regOf v) us))
+          | none => some ["bad-types".toList]
         | none => some ["bad-project".toList]
       | _ => some ["bad-request".toList]
     else if cmd == "c07.spec".toList then
       match args with
-      | toks =>
+      | all =>
+        let (toks, tt, st) := splitTypes all
+        let (pairable, _) := parseSubSection st
         match parseProject (toks.length + 1) toks [] with
-        | some us => some ("ok".toList :: showRes (specBProject us))
+        | some us =>
+          let res := specProjectS pairable SpecState.empty (eraseUnits us)
+          match parseTypes res (tt.length + 1) tt [] with
+          | some rs => some ("ok".toList :: (showRes res ++ showCells (specGenericRes [] rs)))
+          | none => some ["bad-types".toList]
         | none => some ["bad-project".toList]
     else none
   | [] => none
